@@ -5,7 +5,8 @@
 // the same names plus an unknown one x requested names (configured, unlisted, unknown,
 // prefixes / extensions / case variants, empty, with separators) on the socket-style front
 // end (AcceptConnection after Channels.Filter) and on the websocket front end with two
-// paths carrying independent allow-lists. A wiring pass drives the real HttpServer.Startup
+// paths carrying independent allow-lists; then pairs of requests issued together on one
+// session while the n-th write of the server's carrier end is held. A wiring pass drives the real HttpServer.Startup
 // and SocketServer.Startup on loopback sockets for a reduced table.
 package c03
 
@@ -18,6 +19,7 @@ import (
 
 	"github.com/bokysan/socketace/v2/verifharness/bubble"
 	"github.com/bokysan/socketace/v2/verifharness/mc"
+	"github.com/bokysan/socketace/v2/verifharness/netsim"
 	"github.com/bokysan/socketace/v2/verifharness/world"
 )
 
@@ -30,10 +32,15 @@ type Case struct {
 	List   []string `json:"list"`
 	List2  []string `json:"list2,omitempty"` // ws: allow-list of the second path
 	Wiring string   `json:"wiring,omitempty"`
+	Pairs  bool     `json:"pairs,omitempty"` // after the single requests: pairs of requests issued together
 }
 
 func (c Case) String() string {
-	return fmt.Sprintf("%s table=%v list=%v list2=%v", c.Front, c.Table, c.List, c.List2)
+	p := ""
+	if c.Pairs {
+		p = " pairs-at-once"
+	}
+	return fmt.Sprintf("%s table=%v list=%v list2=%v%s", c.Front, c.Table, c.List, c.List2, p)
 }
 
 func subsets(xs []string) [][]string {
@@ -121,6 +128,86 @@ func runRequests(w *world.World, path string, table, list []string, phase string
 	return nil
 }
 
+// runPairs requests two names at (nearly) the same time on ONE fresh session, while the
+// hs-th write of the server's carrier end is held back until both requests are in: what one
+// request carries must not decide where the other one goes.
+var pairsRun int // sessions driven by runPairs in the current execution
+
+func runPairs(w *world.World, path string, table, list []string, phase string, hold *int, release *func()) *failure {
+	var pool []string
+	for _, n := range names {
+		if route(table, list, n) != "" {
+			pool = append(pool, n)
+		}
+	}
+	if len(pool) == 0 {
+		return nil
+	}
+	others := append(append([]string{}, names...), "zz")
+	for _, n1 := range pool {
+		for _, n2 := range others {
+			if n1 == n2 {
+				continue
+			}
+			for _, swap := range []bool{false, true} {
+				for hs := 0; hs <= 6; hs++ {
+					pair := []string{n1, n2}
+					if swap {
+						pair = []string{n2, n1}
+					}
+					*hold, *release = hs, nil
+					pairsRun++
+					ups := w.NewClientPath(path)
+					before := map[string]int{}
+					for _, c := range w.Chans {
+						before[c.ChName] = c.NumTargets()
+					}
+					var apps []*world.Endpoint
+					for _, name := range pair {
+						app := w.OpenAppVia(ups, name, nil)
+						app.StartWrite([]byte("pair-" + fmt.Sprintf("%q", name)))
+						apps = append(apps, app)
+					}
+					bubble.Wait()
+					if *release != nil {
+						(*release)()
+					}
+					*hold = 0
+					bubble.Wait()
+					bubble.Advance(2 * time.Second)
+					want := map[string][]string{} // channel -> payloads that must arrive there
+					for _, name := range pair {
+						if ch := route(table, list, name); ch != "" {
+							want[ch] = append(want[ch], "pair-"+fmt.Sprintf("%q", name))
+						}
+					}
+					for _, c := range w.Chans {
+						var got []string
+						for i := before[c.ChName]; i < c.NumTargets(); i++ {
+							got = append(got, string(c.Target(i).Bytes()))
+						}
+						sort.Strings(got)
+						exp := append([]string{}, want[c.ChName]...)
+						sort.Strings(exp)
+						if fmt.Sprint(got) != fmt.Sprint(exp) {
+							kind := "misrouted"
+							if len(got) > len(exp) {
+								kind = "exposed"
+							}
+							return &failure{kind + "|two-requests-at-once", fmt.Sprintf("%s: requests %q issued together on one session (server write #%d held meanwhile; table %v, allow-list %v): target %q got connections carrying %q, must be %q (front=%q)", phase, pair, hs, table, list, c.ChName, got, exp, w.Front.Err)}
+						}
+					}
+					for _, a := range apps {
+						a.Close()
+					}
+					bubble.Wait()
+				}
+			}
+		}
+	}
+	return nil
+}
+
 func classify(table, list []string, name string) string {
 	switch {
 	case contains(table, name) && len(list) > 0 && !contains(list, name):
@@ -142,6 +229,12 @@ func classify(table, list []string, name string) string {
 func execute(t *testing.T, c Case) (kind, detail string, startupRefused bool) {
 	res := bubble.Run(t, func() {
 		o := world.Options{Carrier: "stream", Channels: c.Table, AllowList: c.List, Keep: true}
+		hold, release := 0, (func())(nil)
+		o.OnDial = func(_, sv *netsim.MemConn) {
+			if hold > 0 {
+				release = sv.HoldWriteReturn(hold)
+			}
+		}
 		if c.Front == "ws" {
 			o.Carrier = "ws"
 			l2 := c.List2
@@ -156,6 +249,12 @@ func execute(t *testing.T, c Case) (kind, detail string, startupRefused bool) {
 		}
 		if f := runRequests(w, "", c.Table, c.List, "path /ws"); f != nil {
 			kind, detail = f.kind, f.detail
+			return
+		}
+		if c.Pairs {
+			if f := runPairs(w, "", c.Table, c.List, "path /ws", &hold, &release); f != nil {
+				kind, detail = f.kind, f.detail
+			}
 			return
 		}
 		if c.Front == "ws" {
@@ -205,6 +304,25 @@ func cases(thorough bool) []Case {
 			}
 		}
 	}
+	// pairs of requests issued together on one session, per table, with the empty allow-list, the
+	// full one and every single-name one
+	for _, front := range []string{"socket", "ws"} {
+		for _, tb := range tables {
+			if len(tb) < 2 && !thorough {
+				continue
+			}
+			ls := [][]string{{}}
+			for _, n := range tb {
+				ls = append(ls, []string{n})
+			}
+			if thorough {
+				ls = subsets(tb)
+			}
+			for _, l := range ls {
+				out = append(out, Case{Front: front, Table: tb, List: l, List2: []string{}, Pairs: true})
+			}
+		}
+	}
 	wsTables := [][]string{{"a", "b"}, {"a", "ab", "A", "b"}, {"ab", "A"}}
 	wsLists := [][]string{{}, {"a"}, {"b"}, {"a", "b"}, {"ab"}, {"A"}, {"ab", "A"}}
 	if thorough {
@@ -225,8 +343,14 @@ func TestCheck(t *testing.T) {
 	r := mc.New(t, "C03")
 	defer r.Finish()
 	record := func(c Case, kind, detail string, refused bool) {
-		r.Eval(len(requested))
-		r.Transition(len(requested) * 2)
+		if c.Pairs {
+			r.Eval(pairsRun)
+			r.Transition(pairsRun * 3)
+			pairsRun = 0
+		} else {
+			r.Eval(len(requested))
+			r.Transition(len(requested) * 2)
+		}
 		r.State(mc.Hash(c.String(), kind, refused))
 		if len(c.List) > 0 || len(c.List2) > 0 {
 			r.Nontrivial(mc.Hash(c.String()))
